@@ -1,10 +1,12 @@
 package checks
 
 import (
+	"bufio"
 	"bytes"
 	"fmt"
 	"io"
 	"math/rand"
+	"net"
 	"net/http"
 	"net/http/httptest"
 	"strings"
@@ -83,6 +85,11 @@ func (b *c11base) Write(p []byte) (int, error) {
 
 // ReadFrom: net/http's own response writer implements io.ReaderFrom (sendfile fast path), so
 // io.Copy(w, src) reaches it directly if anything in front of it forwards the interface.
+// Hijack: this connection cannot be taken over.
+func (b *c11base) Hijack() (net.Conn, *bufio.ReadWriter, error) {
+	return nil, nil, fmt.Errorf("connection does not support hijacking")
+}
+
 func (b *c11base) ReadFrom(r io.Reader) (int64, error) {
 	n, err := io.Copy(io.Discard, r)
 	b.l.add("baseWrite", fmt.Sprintf("readfrom:%d", n), nil)
@@ -179,8 +186,16 @@ func c11run(prog []c11op, sessStart, cookStart c11state, failS, failC, nilEmpty 
 		ab.Config.Storage.CookieState.(*c11store).lazy = true
 	}
 	h := ab.LoadClientStateMiddleware(http.HandlerFunc(func(w http.ResponseWriter, r *http.Request) {
+		orig := w // the writer the middleware handed over (wrappers below may hide its optional interfaces)
 		for _, o := range prog {
 			switch o.Op {
+			case "hijackfail":
+				// an upgrade attempt on a connection that cannot be taken over (HTTP/2, a recorder): the
+				// handler gets an error back and carries on with an ordinary response. Not a write.
+				l.add("op", o.String(), nil)
+				if hj, ok := orig.(http.Hijacker); ok {
+					hj.Hijack()
+				}
 			case "putS":
 				l.add("op", o.String(), nil)
 				authboss.PutSession(w, o.K, o.V)
@@ -400,6 +415,15 @@ func c11Unit(c *RunCtx, unit int) {
 			prog = append([]c11op{{Op: "lazy"}}, prog...) // stores that keep the slice they are handed
 			c.Stats.Count("programs-with-write-behind-stores")
 		}
+		if (i+unit)%5 == 2 {
+			// an attempted connection upgrade that fails, somewhere in the program (position not drawn from r)
+			at := (i / 5) % (len(prog) + 1)
+			if len(prog) > 0 && (prog[0].Op == "nested" || prog[0].Op == "lazy") && at == 0 {
+				at = 1
+			}
+			prog = append(prog[:at:at], append([]c11op{{Op: "hijackfail"}}, prog[at:]...)...)
+			c.Stats.Count("programs-with-a-failed-hijack")
+		}
 		ss, cs := c11state{}, c11state{}
 		for _, k := range c11keys {
 			if r.Intn(3) == 0 {
@@ -499,8 +523,8 @@ func init() {
 		Units: func(t string) int { return tierN(t, 64, 256) },
 		Run:   c11Unit,
 		Floors: func(t string) map[string]int {
-			return map[string]int{"programs-with-several-writes": 1000, "programs-flushing-through-wrappers": 500, "programs-with-ops-after-first-write": 1000, "programs-with-a-failing-store": 1000}
+			return map[string]int{"programs-with-several-writes": 1000, "programs-flushing-through-wrappers": 500, "programs-with-ops-after-first-write": 1000, "programs-with-a-failing-store": 1000, "programs-with-a-failed-hijack": 1000, "programs-with-nil-answering-stores": 1000}
 		},
-		Assumptions: []string{"Flush/Hijack and buffering wrappers are outside the alphabet the property quantifies over", "a handler that never writes releases nothing (the library flushes on the first WriteHeader/Write only)"},
+		Assumptions: []string{"Flush, successful hijacks and buffering wrappers are outside the alphabet the property quantifies over (a FAILED hijack attempt, after which the handler answers normally, is in it: every fifth program)", "a handler that never writes releases nothing (the library flushes on the first WriteHeader/Write only)"},
 	})
 }
